@@ -100,7 +100,7 @@ Qed.
 
 Lemma op_send_core e w r w' :
   Core w -> st w = Accepted -> fits Accepted e ->
-  match e with EText _ | EBytes _ => True | _ => False end ->
+  match e with EText _ _ | EBytes _ _ => True | _ => False end ->
   op_send e w = (r, w') -> Core w'.
 Proof.
   intros H Hst Hfit He Hs. unfold op_send in Hs.
@@ -228,6 +228,7 @@ Proof.
     unfold op_send_text in Hs. destruct (require_accepted w) eqn:Er; [injection Hs as <- <-; exact H|].
     assert (Hst : st w = Accepted) by (unfold require_accepted in Er; destruct (st w); congruence).
     destruct p; [|injection Hs as <- <-; exact H].
+    destruct (strish k); [|injection Hs as <- <-; exact H].
     eapply op_send_core; eauto; exact I.
   - unfold op_send_data in Hs. destruct (require_accepted w) eqn:Er; [injection Hs as <- <-; exact H|].
     assert (Hst : st w = Accepted) by (unfold require_accepted in Er; destruct (st w); congruence).
@@ -367,7 +368,8 @@ Proof.
       * injection Ec as <-. exact I.
   - left. unfold op_send_text in H. destruct (require_accepted w) eqn:E.
     + injection H as <- <-. eapply require_accepted_exc; eauto.
-    + destruct p; [eapply op_send_exc; eauto | injection H as <- <-; exact I].
+    + destruct p; [|injection H as <- <-; exact I].
+      destruct (strish k); [eapply op_send_exc; eauto | injection H as <- <-; exact I].
   - left. unfold op_send_data in H. destruct (require_accepted w) eqn:E.
     + injection H as <- <-. eapply require_accepted_exc; eauto.
     + destruct p; [eapply op_send_exc; eauto | injection H as <- <-; exact I].
